@@ -884,8 +884,11 @@ func (s *Sim) opKeys(del bool) {
 		key = c.Devs[s.R.Intn(len(c.Devs))].Addr.String()
 	}
 	pk := projectstypes.ProjectDeveloperKey(key)
-	if s.R.Intn(6) == 0 {
+	switch s.R.Intn(6) {
+	case 0:
 		pk = projectstypes.ProjectAdminKey(key)
+	case 1:
+		pk = projectstypes.ProjectAdminKey(key).AddType(projectstypes.ProjectKey_DEVELOPER) // one key holding both roles
 	}
 	if del {
 		msg := &projectstypes.MsgDelKeys{Creator: c.Addr, Project: proj, ProjectKeys: []projectstypes.ProjectKey{pk}}
